@@ -26,11 +26,13 @@ func failingEnv(m wire.Msg) *wire.Envelope {
 
 // FailingEnvelopes lists the failing envelopes: strings one byte longer than their 16 bit
 // length field (after 0, 32 and 40 bytes of other fields), an update whose allocation is
-// invalid (negative balance; one sub-allocation more than the limit: refused by
-// Allocation.Valid after id and version of the state), an update and a funding agreement with
-// an amount of 129 bytes (refused by the big integer codec in the middle of the balances, in
-// the proposal after the whole initial allocation). Which of them a serializer really refuses
-// is observed, not assumed (the protobuf converters refuse fewer).
+// invalid (negative balance: refused by Allocation.Valid after id and version of the state),
+// an update and a funding agreement with an amount of 129 bytes (refused by the big integer
+// codec in the middle of the balances, in the proposal after the whole initial allocation).
+// Which of them a serializer really refuses is observed, not assumed (the protobuf converters
+// refuse fewer). An update with 1025 sub-allocations is refused at the same point as the
+// negative balance and is left out: Allocation.Encode formats the whole invalid allocation
+// into its error, which costs 3 ms per call.
 func FailingEnvelopes() []Failing {
 	long := Text(math.MaxUint16 + 1)
 	tooBig := new(big.Int).Lsh(big.NewInt(1), 8*LimAmountBytes) // 2^1024: 129 bytes
@@ -51,11 +53,6 @@ func FailingEnvelopes() []Failing {
 			return failingEnv(&client.ChannelUpdateRejMsg{ChannelID: ID32("failing/updrej"), Version: 7, Reason: long})
 		}},
 		{"ChannelUpdateMsg.negative-balance", upd(func(a *channel.Allocation) { a.Balances[1][1] = big.NewInt(-1) })},
-		{"ChannelUpdateMsg.sub-allocations=1025", upd(func(a *channel.Allocation) {
-			for len(a.Locked) <= LimLocked {
-				a.Locked = append(a.Locked, a.Locked[0])
-			}
-		})},
 		{"ChannelUpdateMsg.balance=129-bytes", upd(func(a *channel.Allocation) { a.Balances[1][0] = new(big.Int).Set(tooBig) })},
 		{"LedgerChannelProposalMsg.funding-agreement=129-bytes", func() *wire.Envelope {
 			d := LimAlloc{Name: "failing", Assets: 2, Parts: 2}
